@@ -521,6 +521,11 @@ class Parser:
                     guard = self.expr()
                 self.eat("=>")
                 body = self.expr()
+                if self.peek()[0] == "op" and self.peek()[1] in ASSIGN_OPS:
+                    # an arm which is an assignment: `Pat => *self = Self::One(v),`
+                    op = self.eat()[1]
+                    rhs = self.expr()
+                    body = ("block", [("assign", op, body, rhs)])
                 if self.at(","):
                     self.eat()
                 arms.append((pats, guard, body))
@@ -910,7 +915,7 @@ class Emitter:
             if kv is not None:
                 return kv("()", scope)
             if k is None:
-                return "()"
+                return self.ret(self.cfg.get("result", "()"))
             return k(scope)
         s, rest = sts[0], sts[1:]
         cont = lambda sc: self.stmts(rest, k, sc, kv)   # noqa: E731
@@ -980,6 +985,8 @@ class Emitter:
                 lhs = lhs[2]
             if lhs[0] == "field" and self.is_self(lhs[1]) and lhs[2] in self.cfg.get("self_fields", {}):
                 target = self.cfg["self_fields"][lhs[2]]
+            elif lhs[0] == "path" and lhs[1] == ["self"] and self.cfg.get("mutself"):
+                target = self.cfg["mutself"]["var"]
             elif lhs[0] == "path" and len(lhs[1]) == 1:
                 target = self.v(lhs[1][0])
             else:
@@ -992,7 +999,7 @@ class Emitter:
         if kind == "expr":
             _, e, semi = s
             if e[0] == "macro":
-                if e[1] in ("debug_assert", "debug_assert_eq", "debug_assert_ne", "trace", "debug", "println"):
+                if e[1] in ("debug_assert", "debug_assert_eq", "debug_assert_ne", "trace", "debug", "println") or e[1] in self.cfg.get("ignore_macros", []):
                     return cont(scope)
                 raise Untranslatable("macro " + e[1])
             if e[0] == "return":
@@ -1017,13 +1024,18 @@ class Emitter:
                 else:
                     el = self.stmts(e[4][1] if e[4][0] == "block" else [("expr", e[4], semi)], (lambda sc: cont(sc)) if (rest or k or semi) else None, scope)
                 return f"match {self.ex(e[2])} with\n| {self.pat(e[1])} =>\n{indent(th)}\n| _ =>\n{indent(el)}"
-            if e[0] == "match" and (rest or k or semi or self.has_loop or self.diverges(e) or self.cfg.get("writes")):
+            if e[0] == "match" and (rest or k or semi or self.has_loop or self.diverges(e) or self.cfg.get("writes") or self.cfg.get("mutself")):
                 lines = [f"match {self.ex(e[1])} with"]
                 for pats, guard, body in e[2]:
                     if guard is not None:
                         raise Untranslatable("match guard")
                     b = body[1] if body[0] == "block" else [("expr", body, False)]
                     names = [n for p_ in pats for n in self.pat_names(p_)]
+                    ms = self.cfg.get("mutself")
+                    if ms and len(pats) == 1 and pats[0][0] == "ppath" and self.path_text(pats[0][1]) in ms.get("arm_results", {}) \
+                            and "*self =" not in self.rust_stmts_text(b):
+                        tmpl = ms["arm_results"][self.path_text(pats[0][1])]
+                        b = list(b) + [("rawlet", ms["var"], self.tmpl(tmpl, None, [self.v(n) for n in names]))]
                     text = self.stmts(b, (lambda sc: cont(sc)) if (rest or k or semi) else None, scope + names, tail_kv)
                     lines.append("| " + " | ".join(self.pat(p_) for p_ in pats) + " =>\n" + indent(text))
                 return "\n".join(lines)
@@ -1204,6 +1216,28 @@ class Emitter:
         if p[0] == "pstruct":
             return [n for _, x in p[2] for n in self.pat_names(x)]
         return []
+
+    def rust_stmts_text(self, sts):
+        out = []
+        for st in sts:
+            if st[0] == "assign":
+                out.append(self.rust_text(st[2]) + " = " + self.rust_text(st[3]))
+            elif st[0] == "expr":
+                out.append(self.rust_text(st[1]))
+                if st[1][0] in ("if", "block", "match", "iflet"):
+                    out.append(self.rust_block_text(st[1]))
+        return "; ".join(out)
+
+    def rust_block_text(self, e):
+        if e[0] == "block":
+            return self.rust_stmts_text(e[1])
+        if e[0] == "if":
+            return self.rust_block_text(e[2]) + " " + (self.rust_block_text(e[3]) if e[3] else "")
+        if e[0] == "iflet":
+            return self.rust_block_text(e[3]) + " " + (self.rust_block_text(e[4]) if e[4] else "")
+        if e[0] == "match":
+            return " ".join(self.rust_block_text(b) if b[0] in ("block", "if", "match") else self.rust_text(b) for _, _, b in e[2])
+        return ""
 
     # ---- a normalised rendering of Rust expressions (keys of the override tables)
     def rust_text(self, e):
